@@ -658,7 +658,9 @@ def substitute_aliases(f, known_locals=None):
                     if is_alias or is_temp:
                         uses = _uses_of(body, key)
                         written = any(_writes_local(x, key) for x in walk(body))
-                        if uses and (is_alias or not written):
+                        # a value temporary is folded back only when it names a sub-expression used once; one that is tested
+                        # and then used again carries flow information (guards) that the interval engine keys on the variable
+                        if uses and (is_alias or (not written and len(uses) == 1)):
                             pos = pos or _positions(body)
                             if _stable_until_uses(s, v, init, body, uses, pos, alias=is_alias):
                                 _replace_refs(body, key, init)
